@@ -402,6 +402,10 @@ macro_rules! impl_nio_read {
                     }
                     let error_kind = std::io::Error::last_os_error().kind();
                     if error_kind == std::io::ErrorKind::WouldBlock {
+                        if !blocking {
+                            // the caller put the descriptor in non-blocking mode: report the would-block, never wait
+                            break;
+                        }
                         //wait read event
                         left_time = start_time
                             .saturating_add($crate::syscall::recv_time_limit($fd))
@@ -489,6 +493,10 @@ macro_rules! impl_nio_read_buf {
                     }
                     let error_kind = std::io::Error::last_os_error().kind();
                     if error_kind == std::io::ErrorKind::WouldBlock {
+                        if !blocking {
+                            // the caller put the descriptor in non-blocking mode: report the would-block, never wait
+                            break;
+                        }
                         //wait read event
                         left_time = start_time
                             .saturating_add($crate::syscall::recv_time_limit($fd))
@@ -616,6 +624,14 @@ macro_rules! impl_nio_read_iovec {
                         }
                         let error_kind = std::io::Error::last_os_error().kind();
                         if error_kind == std::io::ErrorKind::WouldBlock {
+                            if !blocking {
+                                // the caller put the descriptor in non-blocking mode: report the would-block, never wait
+                                std::mem::forget(vec);
+                                if received > 0 {
+                                    r = received.try_into().expect("received overflow");
+                                }
+                                return r;
+                            }
                             //wait read event
                             left_time = start_time
                                 .saturating_add($crate::syscall::recv_time_limit($fd))
@@ -724,6 +740,10 @@ macro_rules! impl_nio_write_buf {
                     }
                     let error_kind = std::io::Error::last_os_error().kind();
                     if error_kind == std::io::ErrorKind::WouldBlock {
+                        if !blocking {
+                            // the caller put the descriptor in non-blocking mode: report the would-block, never wait
+                            break;
+                        }
                         //wait write event
                         left_time = start_time
                             .saturating_add($crate::syscall::send_time_limit($fd))
@@ -843,6 +863,14 @@ macro_rules! impl_nio_write_iovec {
                         }
                         let error_kind = std::io::Error::last_os_error().kind();
                         if error_kind == std::io::ErrorKind::WouldBlock {
+                            if !blocking {
+                                // the caller put the descriptor in non-blocking mode: report the would-block, never wait
+                                std::mem::forget(vec);
+                                if sent > 0 {
+                                    r = sent.try_into().expect("sent overflow");
+                                }
+                                return r;
+                            }
                             //wait write event
                             left_time = start_time
                                 .saturating_add($crate::syscall::send_time_limit($fd))
